@@ -38,6 +38,10 @@ pub(crate) fn run() -> Result<(), Error> {
     let env = Env::init(targets)?;
     LogBuilder::from(&env).setup(io::stderr());
 
+    if !ProcessState::exists(&env) {
+        // Nothing has been built here yet.
+        return Ok(());
+    }
     let mut ps = ProcessState::init(env)?;
     let env2 = ps.env().clone();
     // is_dirty() may write (it forgets targets that have vanished) even though
